@@ -732,7 +732,7 @@ func (m *machine) reload(t *rapid.T) {
 	m.class("action=reload")
 }
 
-var quickGroups = []string{"k256", "k256", "k256", "p256", "p256", "ed25519", "ed25519", "pallas", "pallas", "vesta", "bls12381g1", "bls12381g2"}
+var quickGroups = []string{"k256", "k256", "k256", "p256", "p256", "p256", "ed25519", "ed25519", "pallas", "pallas", "vesta", "bls12381g1", "bls12381g2"}
 
 func TestHistory(t *testing.T) {
 	// rapid's Repeat draws a geometric number of steps with this mean; the drawn `limit` below is
@@ -748,6 +748,13 @@ func TestHistory(t *testing.T) {
 			groups = proto.GroupNames()
 		}
 		g := proto.GroupByName(rapid.SampledFrom(groups).Draw(t, "group"))
+		if g.Name() == "bls12381g2" {
+			// G2 arithmetic (purego) makes one protocol step 10-50x dearer than in the other groups
+			maxN, maxSteps = 3, 4
+			if vlib.Thorough() {
+				maxN, maxSteps = 4, 6
+			}
+		}
 		m := &machine{g: g, maxN: maxN, maxECDSA: maxECDSA}
 		m.limit = rapid.IntRange(3, maxSteps).Draw(t, "steps")
 
